@@ -48,6 +48,7 @@ def _worker(args):
         return out
     t0 = time.time()
     res = verify.verify_function(I, c, fi)
+    out["has_ensures"] = bool(c.ensures) and not c.notes.startswith("never-returns")
     out.update(paths=res.paths, outcomes=res.outcomes, error=res.error, sha=res.sha, loc=res.loc,
                inlined=sorted(res.inlined), used=sorted(res.used_contracts), drops=sorted(res.drops), gen_seconds=res.seconds)
     # vacuity: requires must be satisfiable
@@ -199,6 +200,8 @@ def main(argv=None):
             crashes.append((r["key"], "vacuity: contradictory requires"))
         if not r["error"] and not r["obligations"]:
             crashes.append((r["key"], "vacuity: zero obligations generated"))
+        if not r["error"] and r.get("has_ensures") and not r["outcomes"].get("normal"):
+            crashes.append((r["key"], "vacuity: the contract has postconditions but no path returns normally"))
         all_obs.extend(r["obligations"])
     all_obs.extend(lemma_results)
     n = len(all_obs)
